@@ -361,6 +361,19 @@ def main(argv=None):
              sum(n for _, n in known_hits.values()), len(violations), spurious, validated, timeouts, wall))
 
     print("SLOWEST " + " ".join("%s:%ss/%dp" % (i, w, p) for w, i, p in sorted(item_walls, reverse=True)[:6]))
+    # drift guard (informational): functions of the anchor files that the registered check executed when it was
+    # registered (expected_functions.json, committed) but that this run did not reach - a refactoring that routes
+    # around the encoded code would otherwise pass silently.  Never changes the verdict.
+    drift = []
+    try:
+        with open(os.path.join(VERIF, "expected_functions.json")) as f:
+            exp = json.load(f).get(prop, {}).get(a.tier, [])
+        if not a.only:
+            drift = sorted(set(exp) - set(functions))
+            for fn in drift[:20]:
+                print("DRIFT-NOTE property=%s expected function no longer executed: %s" % (prop, fn))
+    except (OSError, ValueError):
+        pass
     if not a.no_evidence and not a.only:
         ev = dict(
             property_id=prop, tier=a.tier, seed=seed, level="model_checking",
@@ -381,7 +394,7 @@ def main(argv=None):
                 solver="z3 %s" % _z3ver(), solver_time_s=round(solver_time, 2), stage_histogram=stage_hist,
                 vacuity=vac, item_timeouts=timeouts, harness_errors=harness_errors[:10],
                 inconclusive_list=inconclusive[:40], notes=notes,
-                known_findings_hit=sorted(known_hits.keys()),
+                known_findings_hit=sorted(known_hits.keys()), drift_expected_functions_not_executed=drift,
                 exhaustive=False,
             ),
             assumptions=(getattr(h, "ASSUMPTIONS", []) + assumptions)[:60],
